@@ -10,7 +10,8 @@ from ..core import Sub, Violation
 RULE = (
     "Hypothesis generates a logical table (n <= 30, 1-3 keys with nulls, one value column of any dtype class), an "
     "operation from the registry of maskable operations (reductions incl. var/std/median/quantile/agg, transform "
-    "variants, cumulative, rolling, shift/diff, EMA, cumcount) and a mask of a kind that operation accepts (boolean "
+    "variants, cumulative, rolling, shift/diff, EMA row- and time-weighted, cumcount), a key layout (contiguous, or "
+    "chunk-wise factorized with the threshold scaled down, where masks are split per key chunk) and a mask of a kind that operation accepts (boolean "
     "array or Series, slice with negative/open bounds, integer positions incl. repeats and unsorted; forced: "
     "all-false, all-true, prefix/suffix masks that empty a group).  Relation 1: op(K,V,mask=m) vs op(K[m],V[m]); "
     "relation 2: re-draw values (and for reductions keys) at unselected rows.  Non-trivial = the mask selects a "
@@ -32,7 +33,12 @@ VARIANTS = {"f": ("float64", "float32"), "i": ("int64", "int16", "uint8", "bool"
 @st.composite
 def case_strategy(draw, variant):
     n = draw(st.sampled_from([1, 2, 3, 4, 5, 6, 8, 10, 12, 16, 20, 30]))
-    keys = draw(S.keys(n, nkeys=(1, 3)))
+    layout = draw(st.sampled_from(["contiguous", "contiguous", "chunkwise"]))
+    if layout == "chunkwise":
+        n = max(n, 4)
+        keys = [draw(S.key_column(n, types=("int", "float", "dt"), shape=draw(st.sampled_from(["random", "blocks", "sorted_prefix"]))))]
+    else:
+        keys = draw(S.keys(n, nkeys=(1, 3)))
     vspec = draw(S.value_column(n, dtypes=VARIANTS[variant], regime="exact"))
     if vspec["dtype"].startswith(("M8", "m8")):
         vspec["vals"] = [None if x is None else x % (2 * 10**17) if vspec["dtype"].endswith("[ns]") else x for x in vspec["vals"]]
@@ -48,7 +54,8 @@ def case_strategy(draw, variant):
     if vspec["dtype"].startswith(("M8", "m8")) and vspec["dtype"].endswith("[ns]"):
         alt_vals = [None if x is None else x % (2 * 10**17) for x in alt_vals]
     alt_keys = draw(S.keys(n, nkeys=(len(keys), len(keys)))) if o.kind == "red" and draw(st.booleans()) else None
-    return {"n": n, "keys": keys, "vals": [vspec], "mask": mask, "op": op, "kw": kw,
+    return {"n": n, "keys": keys, "vals": [vspec], "mask": mask, "op": op, "kw": kw, "layout": layout,
+            "threshold": draw(st.integers(1, n)), "key_chunks": draw(st.integers(1, 5)),
             "sort": draw(st.sampled_from([True, True, False])), "alt_vals": alt_vals,
             "alt_keys": [k["vals"] for k in alt_keys] if alt_keys and all(a["t"] == b["t"] for a, b in zip(alt_keys, keys)) else None,
             "render": {"mc": draw(st.sampled_from(["np", "series"])), "vc": draw(st.sampled_from(["np", "series"])), "kc": "np"}}
@@ -56,8 +63,13 @@ def case_strategy(draw, variant):
 
 def exec_case(case):
     keys, vals, mask, index = gbops.render(case)
-    gb = gbops.build(case, keys)
     o = ops.OPS[case["op"]]
+    if case.get("layout") == "chunkwise":
+        # chunk-wise factorized keys (threshold scaled down): masks are split per key chunk there
+        with gbops.Shims(threshold=case["threshold"], key_chunks=case["key_chunks"]):
+            gb = gbops.build(case, keys)
+            return o.call(gb, vals[0] if o.needs_values else None, mask, dict(case.get("kw", {})))
+    gb = gbops.build(case, keys)
     return o.call(gb, vals[0] if o.needs_values else None, mask, dict(case.get("kw", {})))
 
 
@@ -68,7 +80,11 @@ def filtered(case, positions):
         k["vals"] = [k["vals"][p] for p in positions]
     for v in c["vals"]:
         v["vals"] = [v["vals"][p] for p in positions]
+    for k in ops.ROW_KW:
+        if k in c.get("kw", {}):
+            c["kw"][k] = [c["kw"][k][p] for p in positions]
     c["mask"] = None
+    c["layout"] = "contiguous"
     return c
 
 
@@ -137,7 +153,7 @@ def check(case, ctx):
         except Exception:
             changes = True
     ctx.seen("mask", case, proper and changes,
-             [f"op:{case['op']}", "mask:" + case["mask"]["kind"], f"opkind:{o.kind}",
+             [f"op:{case['op']}", "mask:" + case["mask"]["kind"], f"opkind:{o.kind}", f"layout:{case.get('layout')}",
               "sel:empty" if not positions else ("sel:all" if len(set(positions)) == n else "sel:proper"),
               f"repeats:{len(positions) != len(set(positions))}"])
     # ---- relation 1: filter first
